@@ -73,6 +73,14 @@ func genVars(r *vh.Rng, q int) map[string]interface{} {
 	return nil
 }
 
+// genBytes: empty (often: the interesting value) or a few bytes; never nil.
+func genBytes(r *vh.Rng) []byte {
+	if r.Chance(50) {
+		return []byte{}
+	}
+	return []byte(r.Pick([]string{"a", "ab", "\x00", "xyz"}))
+}
+
 func genSync(r *vh.Rng) string {
 	switch k := r.Intn(100); {
 	case k < 55:
@@ -132,8 +140,11 @@ func GenCase(r *vh.Rng, flavor string) Case {
 		c.Ops = append(c.Ops, Op{Op: "subscribe", ID: id, Q: r.Intn(FirstBadSubQuery), Sync: genSync(r)})
 		live[id] = true
 	}
-	fieldQuery := map[string]int{"a": 0, "s": 1, "items": 2, "obj": 3, "flag": 7, "tick": 8, "f": 10}
-	stale, blocked, slowmw, samevars := -1, -1, -1, -1
+	fieldQuery := map[string]int{"a": 0, "s": 1, "items": 2, "obj": 14, "flag": 7, "tick": 8, "f": 10}
+	stale, blocked, slowmw, samevars, lostrace := -1, -1, -1, -1, -1
+	if r.Chance(12) {
+		lostrace = r.Intn(n)
+	}
 	if (flavor == "C02" && r.Chance(30)) || r.Chance(8) {
 		samevars = r.Intn(n)
 	}
@@ -170,6 +181,26 @@ func GenCase(r *vh.Rng, flavor string) Case {
 				c.Ops = append(c.Ops, Op{Op: "mutate", ID: id, Q: r.Intn(FirstBadMutQuery), Sync: "handled"})
 			}
 			c.Ops = append(c.Ops, Op{Op: "release", ID: id, Sync: "settle"})
+		}
+		if i == lostrace {
+			// a re-run has finished waiting (context still live) and has not yet taken the rerunner's lock when
+			// the subscription is stopped: by unsubscribe, by a mutation-free close, or by the socket closing
+			id := IDPool[r.Intn(3)]
+			f := Fields[r.Intn(5)]
+			c.Ops = append(c.Ops, Op{Op: "unsubscribe", ID: id, Sync: "settle"},
+				Op{Op: "subscribe", ID: id, Q: fieldQuery[f], Sync: "settle"},
+				Op{Op: "proceedhold", N: 1},
+				Op{Op: "set", Field: f, Int: int64(r.Intn(5)), Str: r.Pick(strVals), Sync: "none"},
+				Op{Op: "awaitblock"})
+			if r.Chance(80) {
+				c.Ops = append(c.Ops, Op{Op: "unsubscribe", ID: id, Sync: "handled"})
+				if r.Bool() {
+					c.Ops = append(c.Ops, Op{Op: "echo", ID: IDPool[r.Intn(len(IDPool))], Sync: "handled"})
+				}
+				c.Ops = append(c.Ops, Op{Op: "proceedrelease", Sync: "settle"})
+			} else {
+				c.Ops = append(c.Ops, Op{Op: "close"}, Op{Op: "proceedrelease", Sync: "none"})
+			}
 		}
 		if i == samevars {
 			// several subscriptions of one connection share a query text and differ in their variables; one is
@@ -267,7 +298,11 @@ func GenCase(r *vh.Rng, flavor string) Case {
 				o.Int = int64(r.Intn(2))
 			case "obj":
 				if r.Chance(65) {
-					o.Obj = &Inner{X: int64(r.Intn(3)), Y: r.Pick(strVals)}
+					o.Obj = &Inner{X: int64(r.Intn(3)), Y: r.Pick(strVals), B: genBytes(r)}
+					if r.Chance(60) {
+						b := genBytes(r)
+						o.Obj.P = &b
+					}
 				}
 			case "items":
 				items = genItems(r, items)
